@@ -1,7 +1,7 @@
 (* C30 — property theorems only.  Each is closed by `exact <lemma>` and followed by Print Assumptions. *)
 From Coq Require Import List NArith Bool Arith Permutation.
 From Verif.Common Require Import Packet PolicyRef.
-From Verif.C30 Require Import Model Spec ProofsCidr ProofsRule ProofsTier EndModel EndSpec EndProofsA EndProofsB EndProofsC HistModel HistSpec HistProofs.
+From Verif.C30 Require Import Model Spec ProofsCidr ProofsRule ProofsTier EndModel EndSpec EndProofsA EndProofsB EndProofsC HistModel HistSpec HistProofs RenderModel RenderSpec RenderProofs MeetsSpec.
 Import ListNotations.
 Open Scope N_scope.
 
@@ -97,16 +97,14 @@ Print Assumptions c30_services_with_protocol_refuted.
    could leave the last rule list) and every IPv4 connection of either direction that does not come from one of the
    node's own addresses: the switch rules evaluated by priority give exactly PolicyRef.endpoint_verdict (tiers in
    order, Pass moves on, tier defaults, then the profiles, else deny) and the host layer allows.
-   _partial in one respect: `lists_wf` (every CIDR of the per-tier lists has length <= 32) is a checked hypothesis;
-   it follows from the well-formed inputs but that implication is not proved. *)
-Theorem c30_endpoint_same_verdict_partial : forall st chunk tiers profiles host nhp final inbound p,
+   (That every CIDR of the per-tier lists is well formed is derived from the input guards: lists_wf_from_domain.) *)
+Theorem c30_endpoint_same_verdict : forall st chunk tiers profiles host nhp final inbound p,
   ep_domain st chunk tiers profiles true = true -> ep_domain st chunk tiers profiles false = true ->
-  lists_wf st chunk tiers profiles true = true -> lists_wf st chunk tiers profiles false = true ->
   endpoint_rules true st chunk tiers profiles host nhp = Some final ->
   fits_prio final = true -> ep_packet_ok host inbound p = true ->
   ep_gives final inbound p (ep_expected st tiers profiles inbound p) = true.
 Proof. exact endpoint_same_verdict. Qed.
-Print Assumptions c30_endpoint_same_verdict_partial.
+Print Assumptions c30_endpoint_same_verdict.
 
 (* flattenTiers is sequential composition: the first match of the flattened list is the first match of the first
    tier, and on Pass that of the following tiers; Pass in the last tier blocks.  (Every tier ends in a catch-all.) *)
@@ -196,6 +194,38 @@ Theorem c30_history_same_verdict : forall chunk h ids inbound eot p,
             (expected (snd (run_history chunk h)) (current_pols (run_history chunk h) ids) inbound eot p) = true.
 Proof. exact history_same_verdict. Qed.
 Print Assumptions c30_history_same_verdict.
+
+(* RENDERING HISTORIES.  One PolicySets serves many renderings (endpoints with different tier layouts).  A rendering
+   after any history of policy-set / IP-set operations is the endpoint's rule list computed from scratch for the
+   CURRENT policies, IP sets and that layout (a pure function of them) ... *)
+Theorem c30_rendering_pure : forall fixed chunk h L host nhp,
+  profiles_present (run_history chunk h) L = true ->
+  render fixed (run_history chunk h) L host nhp
+  = endpoint_rules fixed (snd (run_history chunk h)) chunk (map (resolve_tier (run_history chunk h)) (l_tiers L))
+                   (resolve_profiles (run_history chunk h) L) host nhp.
+Proof. exact render_fresh. Qed.
+Print Assumptions c30_rendering_pure.
+
+(* ... and it does not depend on what was rendered before: only on the operations that precede it. *)
+Theorem c30_rendering_independent : forall fixed chunk host nhp ops1 L s,
+  run_r fixed chunk host nhp s (ops1 ++ [RRender L])
+  = run_r fixed chunk host nhp s ops1 ++ [render fixed (fold_left (step chunk) (hops_of ops1) s) L host nhp].
+Proof. exact render_independent. Qed.
+Print Assumptions c30_rendering_independent.
+
+(* The oracles of the correspondence accept every run of the model inside the theorem domains. *)
+Theorem c30_model_meets_spec : forall st chunk pols inbound eot pkts,
+  in_domain st chunk pols inbound = true ->
+  ok_rules st pols inbound eot (tier_hns st chunk pols inbound eot) pkts = true.
+Proof. exact tier_model_meets_spec. Qed.
+Print Assumptions c30_model_meets_spec.
+
+Theorem c30_endpoint_model_meets_spec : forall st chunk tiers profiles host nhp final pin pout,
+  ep_domain st chunk tiers profiles true = true -> ep_domain st chunk tiers profiles false = true ->
+  endpoint_rules true st chunk tiers profiles host nhp = Some final -> fits_prio final = true ->
+  ok_endpoint st tiers profiles host (Some final) pin pout = true.
+Proof. exact endpoint_model_meets_spec. Qed.
+Print Assumptions c30_endpoint_model_meets_spec.
 
 (* Non-vacuity: the policy arrives while its IP set is empty (rule skipped), then the set gains a member. *)
 Example c30_example_history :
